@@ -24,7 +24,7 @@ def run_scenario(model: Model, s):
         return obs, unis
     f = model.func(s.func)
     try:
-        outs = run_entry(model, s.func, s.args, hooks=s.hooks, presets=s.presets)
+        outs = run_entry(model, s.func, s.args, hooks=s.hooks, presets=s.presets, driver=s.driver)
     except Unmodelled as e:
         obs.append(Ob("E5-CHAIN", base + ":explore", ERROR, model.where(f), s.name, f"unmodelled: {e}"))
         _cache[key] = (obs, unis)
@@ -73,6 +73,15 @@ def run_scenario(model: Model, s):
         for ob in getattr(o, "code_obligations", []):
             if any(w[0] in ob["ctx"] for w in s.waive):
                 continue
+            if s.strict_sizes:
+                # operands are given independent generic sizes: any identification the code makes beyond the declared
+                # ones is a definite type error (torch raises for generic sizes, or contracts the wrong axes when they coincide)
+                if not ob["ok"] and ob["a"] != ob["b"]:
+                    obs.append(Ob("E5-CHAIN", f"{pk}:sizes:{ob['a']}~{ob['b']}", VIOLATED, ob["where"].split(" ")[0] or model.where(f), s.name,
+                                  f"{s.func}, scenario {s.name}, path [{path}]: {ob['ctx']} contracts/aligns an axis of size {ob['a']} "
+                                  f"with an axis of size {ob['b']} ({ob['tags'][0]} / {ob['tags'][1]}): these belong to different "
+                                  "bonds/modes of the local problem"))
+                continue
             unis.append((s, path, ob))
         for msg in getattr(o, "info", []) or []:
             obs.append(Ob("E5-INFO", f"{pk}:info:{msg[:40]}", INFO, model.where(f), s.name, msg))
@@ -95,6 +104,7 @@ def scenarios():
     from . import scenarios2  # noqa: F401  (further catalogues register themselves)
     from . import scenarios3  # noqa: F401
     from . import scenarios4  # noqa: F401
+    from . import scenarios5  # noqa: F401
     return sc.SCENARIOS
 
 
